@@ -221,6 +221,50 @@ impl Scn
         true
     }
 
+    /*  mv / cp -p: the file keeps its stamp and mode */
+    pub fn mv(&mut self, p : &str, q : &str) -> bool
+    {
+        if !self.sys.exists(p) || p == q { return false; }
+        if let Some(t) = &mut self.twin { t.mv(p, q); }
+        self.user_tick();
+        {
+            let mut fs = self.sys.fs.lock().unwrap();
+            let f = fs.files.remove(p).unwrap();
+            fs.files.insert(q.to_string(), f);
+        }
+        self.out.push(json!({"a" : "mv", "p" : p, "q" : q}));
+        true
+    }
+
+    /*  damage a state file: "table" or the history file of the rule with the given id */
+    pub fn corrupt(&mut self, what : &str, rid : &str) -> bool
+    {
+        let path = if what == "table" { format!("{}/current_file_states", DIR) }
+            else
+            {
+                match self.names.rids.iter().find(|(_, r)| *r == rid) { Some((t, _)) => format!("{}/history/{}", DIR, t), None => return false }
+            };
+        if !self.sys.exists(&path) { return false; }
+        {   /* only a file that currently decodes can be "damaged" in the model's sense */
+            let fs = self.sys.fs.lock().unwrap();
+            let data = fs.files.get(&path).unwrap().data.clone();
+            let ok = if what == "table" { crate::project::decode_table(&data).is_some() } else { crate::project::decode_history(&data).is_some() };
+            if !ok { return false; }
+        }
+        if let Some(t) = &mut self.twin { t.corrupt(what, rid); }
+        self.user_tick();
+        self.sys.put(&path, "\u{1}garbage");
+        self.out.push(json!({"a" : "corrupt", "what" : what, "rid" : if what == "table" { "" } else { rid }}));
+        true
+    }
+
+    pub fn history_rids(&self) -> Vec<String>
+    {
+        let pre = format!("{}/history/", DIR);
+        let fs = self.sys.fs.lock().unwrap();
+        fs.files.keys().filter(|p| p.starts_with(&pre) && !p.ends_with(".tmp")).filter_map(|p| self.names.rids.get(&p[pre.len()..]).cloned()).collect()
+    }
+
     pub fn set_env(&mut self, v : &str)
     {
         if let Some(t) = &mut self.twin { t.set_env(v); }
